@@ -1636,7 +1636,18 @@ pub fn check_text(text: &str, tok_offs: &[usize], label: &str, detectors: &[Dete
         // completeness
         if mode == Mode::Semantic {
             for x in verdicts.iter().filter(|x| x.must) {
-                let ok = x.anchors.iter().any(|&a| got.contains(&crate::layout::line_of(text, a)));
+                let mut ok = x.anchors.iter().any(|&a| got.contains(&crate::layout::line_of(text, a)));
+                // a container (contract, struct) counts as reported by any reported line that lies inside it and not inside
+                // another verdict's construct nested in it: WHERE inside the container the finding points is C02's business
+                if !ok && matches!(x.kind, "ContractDefinition" | "StructDefinition") {
+                    let lo = crate::layout::line_of(text, x.span.0);
+                    let hi = crate::layout::line_of(text, x.span.1.saturating_sub(1).max(x.span.0));
+                    ok = got.iter().any(|&l| {
+                        l >= lo && l <= hi && !verdicts.iter().any(|y| {
+                            y.node != x.node && y.span.0 >= x.span.0 && y.span.1 <= x.span.1 && l >= crate::layout::line_of(text, y.span.0) && l <= crate::layout::line_of(text, y.span.1.saturating_sub(1).max(y.span.0))
+                        })
+                    });
+                }
                 if !ok {
                     res.violations.push(Violation {
                         site: format!("{}:missed:{}:{}", d.name, x.kind, context_of(&tree, x.node)),
